@@ -451,6 +451,9 @@ func (t Table) Lookup(req *http.Request, trace string, pick picker, match matche
 					target.RedirectURL.Host == req.Host &&
 					target.RedirectURL.Path == req.URL.Path {
 					log.Print("[INFO] Skipping redirect with same scheme, host and path")
+					// without a further host to try there is no route: never
+					// answer with a redirect onto the request itself
+					target = nil
 					continue
 				}
 			}
